@@ -108,9 +108,54 @@ pub fn gen_master(tape: &[u32], version: AutosarVersion) -> Option<ADoc> {
     Some(ADoc { version, standalone: None, root })
 }
 
+/// master for the conflict variant: elements with lists of NAMED children below parents that are not splittable in all
+/// versions (DATA-ELEMENTS, ARGUMENTS, PORTS, PORT-GROUPS - the last is splittable in the newest versions only)
+pub fn gen_conflict_master(tape: &[u32], version: AutosarVersion) -> Option<ADoc> {
+    let si = SpecIndex::get();
+    let mut t = Tape::new(tape);
+    let mut g = Gen::new(version, &mut t, GenOpts { budget: 4, p_optional: 30, p_attr: 20, p_comment: 0, max_depth: 3 });
+    let mut root = ANode::new(ElementName::Autosar, autosar_data_specification::ElementType::ROOT);
+    let (pt, _) = autosar_data_specification::ElementType::ROOT.find_sub_element(ElementName::ArPackages, 1 << g.vi)?;
+    let ptid = si.id_of(pt);
+    let mut pkgs = ANode::new(ElementName::ArPackages, pt);
+    let (mut pkg, pkid) = named(&mut g, ptid, ElementName::ArPackage, "p1")?;
+    let (et, _) = si.types[pkid].etype.find_sub_element(ElementName::Elements, 1 << g.vi)?;
+    let etid = si.id_of(et);
+    let mut els = ANode::new(ElementName::Elements, et);
+    // (element kind, name, [(container, child kind)])
+    let shapes: [(ElementName, &str, &[(ElementName, ElementName)]); 3] = [
+        (ElementName::SenderReceiverInterface, "i", &[(ElementName::DataElements, ElementName::VariableDataPrototype)]),
+        (ElementName::ApplicationSwComponentType, "c", &[(ElementName::Ports, ElementName::PPortPrototype), (ElementName::PortGroups, ElementName::PortGroup)]),
+        (ElementName::BswModuleEntry, "b", &[(ElementName::Arguments, ElementName::SwServiceArg)]),
+    ];
+    for (kind, nm, lists) in shapes {
+        let Some((mut e, tid)) = named(&mut g, etid, kind, nm) else { continue };
+        for (li, (cont, child)) in lists.iter().enumerate() {
+            let Some((ct, _)) = si.types[tid].etype.find_sub_element(*cont, 1 << g.vi) else { continue };
+            let ctid = si.id_of(ct);
+            let mut c = ANode::new(*cont, ct);
+            let n = 2 + g.tape.below(2);
+            for i in 0..n {
+                if let Some((k, _)) = named(&mut g, ctid, *child, [["x", "y", "z"], ["u", "v", "w"]][li % 2][i]) {
+                    c.content.push(AContent::Elem(k));
+                }
+            }
+            if c.children().count() >= 2 {
+                e.content.push(AContent::Elem(c));
+            }
+        }
+        els.content.push(AContent::Elem(e));
+    }
+    pkg.content.push(AContent::Elem(els));
+    pkgs.content.push(AContent::Elem(pkg));
+    root.content.push(AContent::Elem(pkgs));
+    Some(ADoc { version, standalone: None, root })
+}
+
 /// assign file sets: children of a splittable parent get a non-empty subset of the parent's files
-fn assign(n: &ANode, files: u8, version: AutosarVersion, t: &mut Tape, force_full: bool) -> Asg {
-    let split = n.etype.splittable_in(version);
+fn assign(n: &ANode, files: u8, version: &[AutosarVersion], t: &mut Tape, force_full: bool) -> Asg {
+    // a parent is split only where the meta-model allows it in the version of EVERY file involved
+    let split = version.iter().all(|v| n.etype.splittable_in(*v));
     let mut kids = vec![];
     // children without identity (no item name) of one kind cannot be told apart by any merge: they stay together
     let mut per_name: std::collections::HashMap<ElementName, u8> = std::collections::HashMap::new();
@@ -328,15 +373,19 @@ pub struct MergeCase {
     pub k: usize,
     pub permute: bool,
     pub perm_seed: u64,
+    /// per file: 0 = the master's version, n = version index (vi + n) mod 21
+    pub vers: Vec<u8>,
+    /// conflict variant: two files that diverge below a parent that is not splittable
+    pub conflict: bool,
 }
 
 impl MergeCase {
     fn to_json(&self) -> Value {
-        json!({"kind":"merge","vi":self.vi,"tape":self.tape,"split":self.split,"k":self.k,"permute":self.permute,"perm_seed":self.perm_seed})
+        json!({"kind":"merge","vi":self.vi,"tape":self.tape,"split":self.split,"k":self.k,"permute":self.permute,"perm_seed":self.perm_seed,"vers":self.vers,"conflict":self.conflict})
     }
     fn from_json(v: &Value) -> Option<MergeCase> {
         let arr = |k: &str| -> Vec<u32> { v[k].as_array().map(|a| a.iter().map(|x| x.as_u64().unwrap_or(0) as u32).collect()).unwrap_or_default() };
-        Some(MergeCase { vi: v["vi"].as_u64()? as usize, tape: arr("tape"), split: arr("split"), k: v["k"].as_u64()? as usize, permute: v["permute"].as_bool()?, perm_seed: v["perm_seed"].as_u64().unwrap_or(0) })
+        Some(MergeCase { vi: v["vi"].as_u64()? as usize, tape: arr("tape"), split: arr("split"), k: v["k"].as_u64()? as usize, permute: v["permute"].as_bool()?, perm_seed: v["perm_seed"].as_u64().unwrap_or(0), vers: v["vers"].as_array().map(|a| a.iter().map(|x| x.as_u64().unwrap_or(0) as u8).collect()).unwrap_or_default(), conflict: v["conflict"].as_bool().unwrap_or(false) })
     }
 }
 
@@ -366,8 +415,22 @@ pub fn run_case(c: &MergeCase, st: &mut Stats) -> Result<(), Failure> {
     let Some(master) = gen_master(&c.tape, version) else { return Ok(()) };
     let k = c.k.clamp(2, 4);
     let all: u8 = (1u8 << k) - 1;
+    if c.conflict {
+        // half of the conflict cases on a master built for the purpose
+        let m2 = if c.perm_seed % 2 == 0 { gen_conflict_master(&c.tape, version) } else { None };
+        return run_conflict_case(c, m2.as_ref().unwrap_or(&master), st);
+    }
     let mut t = Tape::new(&c.split);
-    let asg = assign(&master.root, all, version, &mut t, false);
+    // versions of the files (a view that is not valid in its version falls back to the master's version below)
+    let mut fvers: Vec<AutosarVersion> = (0..k)
+        .map(|i| match c.vers.get(i).copied().unwrap_or(0) as usize {
+            0 => version,
+            o => versions()[(c.vi + o) % NVER],
+        })
+        .collect();
+    let mut all_vs = fvers.clone();
+    all_vs.push(version);
+    let asg = assign(&master.root, all, &all_vs, &mut t, false);
     st.eval();
     let names: Vec<String> = (0..k).map(|i| format!("file{i}.arxml")).collect();
     // views and their texts
@@ -391,9 +454,20 @@ pub fn run_case(c: &MergeCase, st: &mut Stats) -> Result<(), Failure> {
     }
     for i in 0..k {
         let v = view(&master.root, &asg, i, if c.permute { Some(&mut sm) } else { None });
-        let d = ADoc { version, standalone: None, root: v };
-        let (bytes, _) = render(&d, &[], true);
+        let d = ADoc { version: fvers[i], standalone: None, root: v.clone() };
+        let (mut bytes, _) = render(&d, &[], true);
+        if fvers[i] != version && AutosarModel::new().load_buffer(&bytes, "probe.arxml", true).is_err() {
+            // this view holds something that does not exist in the chosen version: it keeps the master's version
+            fvers[i] = version;
+            bytes = render(&ADoc { version, standalone: None, root: v }, &[], true).0;
+        }
         texts.push(bytes);
+    }
+    {
+        let mut d: Vec<String> = fvers.iter().map(|v| format!("{v:?}")).collect();
+        d.sort();
+        d.dedup();
+        st.class(if d.len() > 1 { "files-of-different-versions" } else { "files-of-one-version" });
     }
     let show = || {
         let mut s = String::new();
@@ -494,6 +568,119 @@ pub fn run_case(c: &MergeCase, st: &mut Stats) -> Result<(), Failure> {
     Ok(())
 }
 
+/// "conflicting files must be rejected": two complete views of the master (file versions possibly different) are made to
+/// diverge below a parent that is NOT splittable in both versions - one file keeps only the named child x, the other only its
+/// sibling y of the same kind. Both load orders must reject the second file; in any case both orders must give the same verdict.
+fn run_conflict_case(c: &MergeCase, master: &ADoc, st: &mut Stats) -> Result<(), Failure> {
+    let version = master.version;
+    st.eval();
+    let fv: Vec<AutosarVersion> = (0..2)
+        .map(|i| match c.vers.get(i).copied().unwrap_or(0) as usize {
+            0 => version,
+            o => versions()[(c.vi + o) % NVER],
+        })
+        .collect();
+    // candidate parents: (path of child indices) with two named children of one kind, not splittable in at least one version
+    fn walk(n: &ANode, path: &mut Vec<usize>, fv: &[AutosarVersion], out: &mut Vec<(Vec<usize>, usize, usize, bool, bool)>) {
+        let kids: Vec<(usize, &ANode)> = n.content.iter().enumerate().filter_map(|(i, c)| if let AContent::Elem(e) = c { Some((i, e)) } else { None }).collect();
+        let nonsplit_some = fv.iter().any(|v| !n.etype.splittable_in(*v));
+        let nonsplit_all = fv.iter().all(|v| !n.etype.splittable_in(*v));
+        if nonsplit_some {
+            for a in 0..kids.len() {
+                for b in a + 1..kids.len() {
+                    if kids[a].1.name == kids[b].1.name && kids[a].1.item_name().is_some() && kids[b].1.item_name().is_some() {
+                        out.push((path.clone(), kids[a].0, kids[b].0, nonsplit_all, true));
+                    } else if kids[a].1.name != kids[b].1.name && kids[a].1.name != ElementName::ShortName && kids[b].1.name != ElementName::ShortName && out.len() % 3 == 0 {
+                        // children of DIFFERENT kinds: the library accepts such files (it cannot tell a split from a conflict there);
+                        // only "no panic" and "the same result in both orders" are claimed (flag false)
+                        out.push((path.clone(), kids[a].0, kids[b].0, nonsplit_all, false));
+                    }
+                }
+            }
+        }
+        for (i, k) in kids {
+            path.push(i);
+            walk(k, path, fv, out);
+            path.pop();
+        }
+    }
+    let mut cands = vec![];
+    walk(&master.root, &mut vec![], &fv, &mut cands);
+    if cands.is_empty() {
+        st.class("conflict:no-candidate-parent");
+        return Ok(());
+    }
+    let (path, xa, xb, nonsplit_all, same_kind) = cands[(c.perm_seed % cands.len() as u64) as usize].clone();
+    fn without(n: &ANode, path: &[usize], drop: usize) -> ANode {
+        let mut out = n.clone();
+        if path.is_empty() {
+            out.content.remove(drop);
+        } else if let AContent::Elem(e) = &n.content[path[0]] {
+            out.content[path[0]] = AContent::Elem(without(e, &path[1..], drop));
+        }
+        out
+    }
+    let views = [without(&master.root, &path, xb), without(&master.root, &path, xa)];
+    let names = ["file0.arxml".to_string(), "file1.arxml".to_string()];
+    let mut texts = vec![];
+    for i in 0..2 {
+        let (bytes, _) = render(&ADoc { version: fv[i], standalone: None, root: views[i].clone() }, &[], true);
+        if let Err(e) = AutosarModel::new().load_buffer(&bytes, "probe.arxml", true) {
+            st.class("conflict:view-not-valid-on-its-own");
+            if std::env::var("VERIF_DEBUG_C09").is_ok() {
+                eprintln!("C09DEBUG {e}");
+            }
+            return Ok(());
+        }
+        texts.push(bytes);
+    }
+    st.class(if fv[0] != fv[1] { "conflict:files-of-different-versions" } else { "conflict:files-of-one-version" });
+    st.nontrivial(fnv(&texts[0]) ^ fnv(&texts[1]).rotate_left(7));
+    let show = || format!("--- file0.arxml ({:?}) ---\n{}\n--- file1.arxml ({:?}) ---\n{}", fv[0], String::from_utf8_lossy(&texts[0][..texts[0].len().min(1800)]), fv[1], String::from_utf8_lossy(&texts[1][..texts[1].len().min(1800)]));
+    let fail = |sig: &str, msg: String| Failure::new(sig, format!("{msg}\n{}", show()), c.to_json());
+    let mut verdicts: Vec<Result<String, String>> = vec![];
+    for order in [[0usize, 1], [1, 0]] {
+        let m = AutosarModel::new();
+        let mut verdict = Ok(String::new());
+        for i in order {
+            match crate::engine::no_panic(|| m.load_buffer(&texts[i], &names[i], true)) {
+                Ok(Ok(_)) => {}
+                Ok(Err(e)) => {
+                    verdict = Err(crate::hist::err_variant(&e));
+                    break;
+                }
+                Err(p) => return Err(fail(&format!("merge:panic:{}", panic_site(&p)), format!("load order {:?}: panic {p}", order))),
+            }
+        }
+        if verdict.is_ok() {
+            verdict = Ok(canon_model(&m.root_element(), &names.to_vec(), true));
+        }
+        verdicts.push(verdict);
+    }
+    match (&verdicts[0], &verdicts[1]) {
+        (Ok(a), Ok(b)) => {
+            if nonsplit_all && same_kind {
+                return Err(fail("merge:conflict-accepted", "both load orders accept two files that diverge (different named children of one kind) below a parent that is not splittable in either file's version".into()));
+            }
+            if nonsplit_all && !same_kind {
+                // recorded finding KF-C09-4: the merge cannot tell a conflict from a split when the diverging children are of
+                // different kinds (the check is commented out in merge_element); what the merged model looks like then
+                // depends on the load order
+                return Err(fail("merge:conflict-of-different-kinds-accepted", format!("both load orders accept two files that diverge (children of different kinds) below a parent that is not splittable in either file's version; merged models {}", if a == b { "equal" } else { "differ by load order" })));
+            }
+            if a != b && same_kind {
+                return Err(fail("merge:order-dependent-result", "both load orders accept the diverging files but the merged models differ".into()));
+            }
+            st.class("conflict:accepted-by-both-orders(parent splittable in one of the versions)");
+        }
+        (Err(_), Err(_)) => st.class("conflict:rejected-by-both-orders"),
+        (a, b) => {
+            return Err(fail("merge:verdict-depends-on-load-order", format!("order [0,1]: {}; order [1,0]: {}", if a.is_ok() { "accepted".to_string() } else { format!("rejected ({})", a.clone().unwrap_err()) }, if b.is_ok() { "accepted".to_string() } else { format!("rejected ({})", b.clone().unwrap_err()) })));
+        }
+    }
+    Ok(())
+}
+
 pub fn run(ctx: &Ctx) {
     ctx.set_rule(
         "A master document (nested packages, ELEMENTS with 15 element kinds and specification-derived content, sub packages) is distributed over 2-4 files: every child of a parent that the meta-model marks splittable in the version gets a non-empty subset of its parent's files, other children follow their parent; optionally the siblings are ordered differently in every file. All k! load orders (k <= 3; 6 of 24 for k = 4) are executed. \
@@ -501,11 +688,11 @@ pub fn run(ctx: &Ctx) {
     );
     ctx.assume("views of one master are consistent by construction; sibling order inside a file is only changed where the specification allows reordering");
     let cases = ctx.tier.pick(20_000u64, 300_000u64);
-    let strat = (0..NVER, proptest::collection::vec(any::<u32>(), 0..300), proptest::collection::vec(any::<u32>(), 0..120), 2usize..5, any::<bool>(), any::<u64>());
-    run_prop(ctx, "merge", cases, strat, |(vi, tape, split, k, permute, ps), st| {
+    let strat = (0..NVER, proptest::collection::vec(any::<u32>(), 0..300), proptest::collection::vec(any::<u32>(), 0..120), 2usize..5, any::<bool>(), any::<u64>(), prop_oneof![2 => Just(vec![]), 2 => proptest::collection::vec(0u8..21, 1..5)], 0u8..6);
+    run_prop(ctx, "merge", cases, strat, |(vi, tape, split, k, permute, ps, vers, conflict), st| {
         // most cases on recent versions (element kinds of the palette exist there)
         let vi = if *vi < 6 { NVER - 1 - *vi } else { *vi };
-        let c = MergeCase { vi, tape: tape.clone(), split: split.clone(), k: *k, permute: *permute, perm_seed: *ps };
+        let c = MergeCase { vi, tape: tape.clone(), split: split.clone(), k: *k, permute: *permute, perm_seed: *ps, vers: vers.clone(), conflict: *conflict == 0 };
         match run_case(&c, st) {
             Ok(()) => Outcome::Pass,
             Err(f) => Outcome::Fail(f),
